@@ -1,6 +1,7 @@
 import SpoxModel.Lemmas.Scope
 import SpoxModel.Lemmas.Named
 import SpoxModel.Lemmas.BuildIR
+import SpoxModel.Lemmas.InlineCheck
 import SpoxModel.Model.Naming
 import SpoxModel.Generated.BuildFlags
 /-!
@@ -296,6 +297,66 @@ def outcome {α} : Except Err α → Option Err
   | .error e => some e
 
 -- a user name colliding with a generated one raises; a clean sequence does not
+/-! ### Ill-typed calls are refused: the argument check of an inlined model (`_Inline.infer_output_types`)
+
+`InlineCheck.accepts` is the loop over `zip(graph.input, inputs)` with `Types.subtype` (= `_subtype`,
+`Shape.__le__`, `Natural.__le__`); tie H: run against the real `inline(model)(…)` on the whole
+shape-boundary grid of every run. The statements hold for ANY dtype table. -/
+
+open InlineCheck Types in
+/-- **An accepted tensor argument has the declared rank** (and an element type the table relates to the
+    declared one, and the same constant wherever both dimensions are constants) — at every position of
+    the call. In particular a scalar never passes for a declared rank ≥ 1, nor the other way round. -/
+theorem inline_arg_rank (tbl : DtypeTable) (decls : List Ty) (args : List (Option Ty))
+    (h : accepts tbl decls args = true) (i e e' : Nat) (as ds : List Natural)
+    (hd : decls[i]? = some (.tensor e' (some ds)))
+    (ha : args[i]? = some (some (.tensor e (some as)))) :
+    (e = e' ∨ tbl.sub e e' = true) ∧ as.length = ds.length ∧
+      ∀ (j n m : Nat), as[j]? = some (Natural.const n) → ds[j]? = some (Natural.const m) → n = m :=
+  subtype_tensor_known tbl (accepts_get tbl h i _ _ hd ha)
+
+open InlineCheck Types in
+/-- **The rank-0 boundary, both directions**: a scalar argument for an input declared with rank ≥ 1 makes
+    the check raise, and so does an argument of rank ≥ 1 for a declared scalar — whatever the element
+    types and the table. -/
+theorem inline_scalar_boundary (tbl : DtypeTable) (e e' : Nat) (d : Natural) (ds : List Natural)
+    (rest : List Ty) (more : List (Option Ty)) :
+    accepts tbl (.tensor e' (some (d :: ds)) :: rest) (some (.tensor e (some [])) :: more) = false ∧
+    accepts tbl (.tensor e' (some []) :: rest) (some (.tensor e (some (d :: ds))) :: more) = false := by
+  constructor
+  · cases hacc : accepts tbl (.tensor e' (some (d :: ds)) :: rest) (some (.tensor e (some [])) :: more) with
+    | false => rfl
+    | true => exact absurd (inline_arg_rank tbl _ _ hacc 0 e e' [] (d :: ds) rfl rfl).2.1 (by simp)
+  · cases hacc : accepts tbl (.tensor e' (some []) :: rest) (some (.tensor e (some (d :: ds))) :: more) with
+    | false => rfl
+    | true => exact absurd (inline_arg_rank tbl _ _ hacc 0 e e' (d :: ds) [] rfl rfl).2.1 (by simp)
+
+open InlineCheck Types in
+/-- **Rank r vs r ± 1 and constant vs another constant** are refused as well (known ranks). -/
+theorem inline_rank_or_const_mismatch_refused (tbl : DtypeTable) (e e' : Nat) (as ds : List Natural)
+    (rest : List Ty) (more : List (Option Ty))
+    (hbad : as.length ≠ ds.length ∨
+      ∃ (j n m : Nat), as[j]? = some (Natural.const n) ∧ ds[j]? = some (Natural.const m) ∧ n ≠ m) :
+    accepts tbl (.tensor e' (some ds) :: rest) (some (.tensor e (some as)) :: more) = false := by
+  cases hacc : accepts tbl (.tensor e' (some ds) :: rest) (some (.tensor e (some as)) :: more) with
+  | false => rfl
+  | true =>
+    have h := inline_arg_rank tbl _ _ hacc 0 e e' as ds rfl rfl
+    rcases hbad with hb | ⟨j, n, m, h1, h2, hne⟩
+    · exact absurd h.2.1 hb
+    · exact absurd (h.2.2 j n m h1 h2) hne
+
+/-! non-vacuity: a symbolic / anonymous / unknown-rank argument IS accepted (compatibility, not equality) -/
+open InlineCheck Types in
+example : accepts ⟨fun _ => none, fun _ => none, fun a b => a == b⟩
+    [.tensor 7 (some [.const 2, .const 3])] [some (.tensor 7 (some [.unk "N", .const 3]))] = true := by decide
+open InlineCheck Types in
+example : accepts ⟨fun _ => none, fun _ => none, fun a b => a == b⟩
+    [.tensor 7 (some [.const 2, .const 3]), .tensor 7 (some [])] [some (.tensor 7 none), none] = true := by decide
+open InlineCheck Types in
+example : accepts ⟨fun _ => none, fun _ => none, fun a b => a == b⟩
+    [.tensor 7 (some [.const 2])] [some (.tensor 7 (some []))] = false := by decide
+
 example : outcome (run {} [.set "Abs_0_Y" 1, .set "Abs_0_Y" 2]) = some .scope := by decide
 example : outcome (run {} [.set "x" 1, .reserve "Inline_0__x", .set "y" 2, .push, .set "z" 3, .pop]) = none := by
   decide
